@@ -16,7 +16,7 @@ import copy
 import json
 import subprocess
 
-from . import core, envgen, project, signrun, tlc, toolrun
+from . import cborx, core, envgen, project, signrun, tlc, toolrun
 
 F4_PINS = {
     "component-id": lambda d: d["SUIT_Envelope_Tagged"]["suit-manifest"]["suit-common"]["suit-components"].append(["M", {"raw": "1801"}]),
@@ -69,8 +69,35 @@ def names_content(ctx, data: bytes, scn):
         desc = toolrun.parse_lib(data)
     except Exception:
         return
+    desc, data = canonical_member_order(desc, data)
     if c02_wire.wire_event(ctx, WIRE["tr"], desc, data, scn):
         ctx.count("parsed_descriptions_reencoded_by_Wire")
+
+
+def canonical_member_order(desc, data: bytes):
+    """C03 compares the integrated payloads and dependencies as a SET, and parse shows them grouped (all payloads under one
+    key, all dependencies under another) wherever they stood in the envelope.  Before the description is re-encoded by the
+    reference encoder, both sides are therefore brought into one canonical order of ENVELOPE members: integer-keyed members in
+    their own order, then the payloads by name, then the dependencies by name.  Every key and value keeps its exact bytes (the
+    envelope side is re-concatenated from the original spans); nothing inside a member is touched."""
+    groups = ("suit-integrated-payloads", "suit-integrated-dependencies")
+    try:
+        env = desc["SUIT_Envelope_Tagged"]
+        names, shown = [], {k: v for k, v in env.items() if k not in groups}
+        for g in groups:
+            if g in env:
+                shown[g] = dict(sorted(env[g].items()))
+                names += sorted(env[g])
+        top = cborx.loads(data)
+        pairs = top.val.val
+        text = {k.val: (k, v) for k, v in pairs if k.mt == 3}
+        if top.mt != 6 or top.val.mt != 5 or sorted(text) != sorted(names) or len(text) != sum(1 for k, _ in pairs if k.mt == 3):
+            return desc, data   # not the expected form: compared as it stands, the judge names the difference
+        prefix = data[:pairs[0][0].start] if pairs else data
+        body = b"".join(k.raw + v.raw for k, v in pairs if k.mt != 3) + b"".join(text[n][0].raw + text[n][1].raw for n in names)
+        return {"SUIT_Envelope_Tagged": shown}, prefix + body
+    except Exception:
+        return desc, data
 
 
 def flush_wire(ctx):
